@@ -101,15 +101,17 @@ example : localOk Defects.none rooms01 3 4
       node := some ⟨0, 1, some 0, 0, 2, 4, 7⟩, edgeDels := [], edgeIns := [] } ⟨0, 1, some 0, 0, 2, 4, 7⟩ = false := by
   decide
 
-/-! ### the code as it is: accepted locally, refused by every peer -/
+/-! ### the code as it is: accepted locally, refused by every peer
 
-/-- the peer's verdict (code as it is) on row `id` of the database a local operation produced, given the
+Each witness turns ONE local switch on over the intended behaviour. -/
+
+/-- the peer's verdict on row `id` of the database a local operation produced, given the
     previous version `old` the peer holds -/
 def peerVerdictOn (rooms : List Room) (r : Except MErr Db) (id : Nat) (old : Option Row) : Bool :=
   match r with
   | .ok db =>
     match db.rows.find? (·.id = id) with
-    | some n => Ingest.validateNode Ingest.Defects.asImplemented (peerWith rooms []) (toInNode n) (old.map toNodeRow)
+    | some n => Ingest.validateNode Ingest.Defects.none (peerWith rooms []) (toInNode n) (old.map toNodeRow)
     | none => false
   | .error _ => false
 
@@ -117,35 +119,38 @@ def peerVerdictOn (rooms : List Room) (r : Except MErr Db) (id : Nat) (old : Opt
     locally; the row it produced is refused by a peer holding the same room and the previous version. The author
     sees its write; nobody else ever does. -/
 theorem C12_breaks_subNodesSkipped :
-    (mutate Defects.asImplemented rooms01 db0 5 4 nestedByOutsider).toBool = true ∧
-    peerVerdictOn rooms01 (mutate Defects.asImplemented rooms01 db0 5 4 nestedByOutsider) 0
+    (mutate { Defects.none with subNodesSkipped := true } rooms01 db0 5 4 nestedByOutsider).toBool = true ∧
+    peerVerdictOn rooms01 (mutate { Defects.none with subNodesSkipped := true } rooms01 db0 5 4 nestedByOutsider) 0
       (db0.rows.find? (·.id = 0)) = false := by decide
 
 /-- **C12_breaks_oldRoomLookup (#2).** Member 3 moves the foreign row 0 from room 0 (own-rows right only) to room 1
     (all-rows right): accepted locally, refused by the peers, which check the departing room. -/
 theorem C12_breaks_oldRoomLookup :
-    (mutate Defects.asImplemented rooms01 db0 3 4
+    (mutate { Defects.none with oldRoomLookup := true } rooms01 db0 3 4
       { handle := 0, isNew := false, entity := 1, room := some 1, val := some 5, field := .none }).toBool = true ∧
-    peerVerdictOn rooms01 (mutate Defects.asImplemented rooms01 db0 3 4
+    peerVerdictOn rooms01 (mutate { Defects.none with oldRoomLookup := true } rooms01 db0 3 4
       { handle := 0, isNew := false, entity := 1, room := some 1, val := some 5, field := .none }) 0
       (db0.rows.find? (·.id = 0)) = false := by decide
 
 /-- **C12_breaks_refDeletionResign (#3).** The outsider 5 deletes a reference that does not exist: accepted
     locally, row 0 re-signed by key 5; the peers refuse that row. -/
 theorem C12_breaks_refDeletionResign :
-    (deleteRef Defects.asImplemented rooms01 db0 5 4 0 1 0 1).toBool = true ∧
-    peerVerdictOn rooms01 (deleteRef Defects.asImplemented rooms01 db0 5 4 0 1 0 1) 0
+    (deleteRef { Defects.none with refDeletionResign := true } rooms01 db0 5 4 0 1 0 1).toBool = true ∧
+    peerVerdictOn rooms01 (deleteRef { Defects.none with refDeletionResign := true } rooms01 db0 5 4 0 1 0 1) 0
       (db0.rows.find? (·.id = 0)) = false := by decide
 
-/-- **C12_partial (the code as it is).** For a change that does not move the row to another room, the local right
-    check of the code as it is and `validate_node` of the code as it is give the same verdict. What is missing
-    with respect to the full statement: room moves (#2), sub-entities under an unchanged parent — which are
-    written without any local check (#1) —, re-signed source rows of reference deletions (#3); and, outside this
-    model, values that only one path refuses (explicit null, Json scalars: DESIGN #14). -/
-theorem C12_partial {rooms : List Room} {caller : Key} {now : Int} {c : Change} {n : Row} {rid : Id}
+/-- **C12_partial (the code as it is).** For a change that does not move the row to another room (and whose
+    previous version, if any, is of the same entity and was in a room), the local right check and `validate_node`
+    give the same verdict whatever the switches of the two models are — in particular for the code as it is on
+    both sides. What is missing with respect to the full statement: room moves (#2), sub-entities under an
+    unchanged parent — which are written without any local check (#1) —, re-signed source rows of reference
+    deletions (#3); and, outside this model, values that only one path refuses (explicit null, Json scalars:
+    DESIGN #14). -/
+theorem C12_partial (df : Defects) (d : Ingest.Defects) {rooms : List Room} {caller : Key} {now : Int}
+    {c : Change} {n : Row} {rid : Id}
     (hroom : c.roomId = some rid) (hn : n.room = some rid) (he : n.entity = c.entity) (hd : n.mdate = now)
-    (hnm : NoMove c) :
-    localOk Defects.asImplemented rooms caller now c = peerOk Ingest.Defects.asImplemented rooms caller c n :=
-  row_verdict_asImplemented hroom hn he hd hnm
+    (hold : ∀ o, c.old = some o → o.entity = c.entity ∧ o.room ≠ none) (hnm : NoMove c) :
+    localOk df rooms caller now c = peerOk d rooms caller c n :=
+  row_verdict_any df d hroom hn he hd hold hnm
 
 end Discret.LocalWrite
